@@ -704,7 +704,7 @@ def module_globals(ix, m):
     for alias, imp in m.imports.items():
         r = ix.resolve_name(m, alias)
         if r and r[0] == 'module' and r[1] is not None:
-            g[alias] = NS('module ' + r[1].short, **module_literals(ix, r[1]))
+            g[alias] = NS('module ' + r[1].short, _mod=r[1], **module_literals(ix, r[1]))
         elif r and r[0] == 'value':
             v = _lit(r[2])
             if v is not None:
